@@ -58,4 +58,11 @@ theorem footer_file (f : FileE) (hnb : f.footer ≠ .bad) :
     simp [z]
   | bad => exact absurd hf hnb
 
+/-- nothing follows the footer of a file the specification writes -/
+theorem inputEnds_file (f : FileE) : inputEnds ((rdbFile f).drop f.body.length) = true := by
+  have hdrop : ∀ tail : Bytes, (f.body ++ tail).drop f.body.length = tail := fun tail => by simp
+  unfold rdbFile inputEnds
+  simp only [hdrop]
+  cases f.footer <;> simp [le64, leN_length]
+
 end GunYu.Rdb
